@@ -887,7 +887,14 @@ type handRangeBuilder struct {
 
 // stmtValues is what fixes a range statement, in the order the library hashes it.
 func stmtValues(index, sign int, a uint, k *big.Int, ld uint, cs []*big.Int) []*big.Int {
-	out := []*big.Int{big.NewInt(int64(index)), big.NewInt(int64(sign)), new(big.Int).SetUint64(uint64(a)), new(big.Int).Set(k), new(big.Int).SetUint64(uint64(ld))}
+	flag := func(b bool) *big.Int {
+		if b {
+			return big.NewInt(1)
+		}
+		return big.NewInt(0)
+	}
+	out := []*big.Int{new(big.Int).Abs(big.NewInt(int64(index))), flag(index < 0), flag(sign < 0), new(big.Int).SetUint64(uint64(a)),
+		new(big.Int).Abs(k), flag(k.Sign() < 0), new(big.Int).SetUint64(uint64(ld))}
 	return append(out, cs...)
 }
 
